@@ -13,6 +13,7 @@ import (
 	"io"
 	"os"
 	"os/exec"
+	"path/filepath"
 	"strconv"
 	"strings"
 	"time"
@@ -392,6 +393,13 @@ func gen(c *common.Ctx, emit func(...string)) {
 // ---- run ------------------------------------------------------------------------
 
 func run(c *common.Ctx) error {
+	// the children's private directories go into the run's scratch directory, which the
+	// check removes: a child that is killed cannot remove its own
+	if c.Dir != "" {
+		tmp := filepath.Join(c.Dir, "tmp")
+		os.MkdirAll(tmp, 0o755)
+		os.Setenv("TMPDIR", tmp)
+	}
 	st := &state{}
 	defer st.kill()
 	s := &common.Std{
